@@ -210,10 +210,43 @@ void orc_c17_delivery(Delivery &d) {
 // =================================================================== C18
 static bool rate_limited(const std::string &n) {
     static const char *names[] = {"start", "pause", "resume", "stop", "bind", "sub", "unsub", "tell", "pub", "bcast", "pill", "become", "unbecome", "stash", "unstash",
-                                  "batch_size", "src_fd", "unsrc_fd", "src_tmr", "unsrc_tmr", "src_sgn", "unsrc_sgn", "src_path", "unsrc_path", "src_pid", "unsrc_pid",
-                                  "src_task", "src_thresh", "unsrc_thresh"};
+                                  "batch_size", "batch_timeout", "src_fd", "unsrc_fd", "src_tmr", "unsrc_tmr", "src_sgn", "unsrc_sgn", "src_path", "unsrc_path", "src_pid", "unsrc_pid",
+                                  "src_task", "unsrc_task", "src_thresh", "unsrc_thresh"};
     for (auto x : names) if (n == x) return true;
     return false;
+}
+// Token accounting from below (any campaign that sets token buckets): -EAGAIN is legitimate only when the bucket can be empty. Every
+// rate-limited call made since the bucket was set that MAY have been charged counts as a token used; calls known to be refused
+// before the token is taken (a sender/subscriber denied by its flags, a publish on the reserved prefix) do not. If fewer calls than
+// the burst can have been charged, tokens are left (refills only add) and a refusal with -EAGAIN is wrong - a denied call was charged.
+void orc_tokens_api(const ApiRec &r, const Frame &f) {
+    if (!rate_limited(r.name)) return;
+    int actor = r.actor >= 0 ? r.actor : r.slot;
+    if (actor < 0 || actor >= (int)W->slots.size()) return;
+    Slot &s = W->slots[actor];
+    if (s.tb_rate == 0 || f.gseq < s.tb_set_gseq) return;
+    const std::string &n = r.name;
+    bool pub_call = n == "tell" || n == "pub" || n == "bcast" || n == "pill";
+    bool sub_call = n == "sub" || n == "unsub";
+    bool known_free = (pub_call && (s.flags & M_MOD_DENY_PUB)) || (sub_call && (s.flags & M_MOD_DENY_SUB)) || (n == "pub" && W->c15_reserved_topic);
+    // calls of this module still in progress up the stack have been charged on entry already
+    uint64_t in_flight = 0;
+    for (auto &fr : W->frames) {
+        if (fr.is_cb || fr.gseq < s.tb_set_gseq || !rate_limited(fr.name)) continue;
+        int a = fr.actor >= 0 ? fr.actor : fr.slot;
+        if (a == actor) in_flight++;
+    }
+    if (r.rc == -EAGAIN) {
+        oracle_eval("tokens.refused-only-when-empty");
+        if (s.tb_charged_max + in_flight < s.tb_burst && !known_free) {
+            char sig[96];
+            snprintf(sig, sizeof sig, "%s:refused-with-tokens-left", W->property.c_str());
+            VIOL(W->property.c_str(), sig, "%s by module slot %d was refused with -EAGAIN although at most %lu of its %lu tokens can have been used since the bucket was set (calls refused for permissions or the reserved topic prefix are not charged)",
+                 n.c_str(), actor, (unsigned long)(s.tb_charged_max + in_flight), (unsigned long)s.tb_burst);
+        }
+        return;
+    }
+    if (!known_free) s.tb_charged_max++;
 }
 void orc_c18_api(const ApiRec &r, const Frame &f, const std::string &snap0, const std::string &snap1) {
     if (!rate_limited(r.name)) return;
